@@ -1,6 +1,8 @@
 package main
 
 import (
+	"go/ast"
+	"go/types"
 	"encoding/json"
 	"flag"
 	"fmt"
@@ -73,6 +75,7 @@ func main() {
 	funcsFlag := flag.String("funcs", "", "comma-separated function keys to verify (debug)")
 	dump := flag.String("dump", "", "directory to dump all queries into (debug)")
 	listFlag := flag.Bool("list", false, "list obligations only")
+	callsFlag := flag.Bool("calls", false, "print 'caller callee' for every call between functions of the library that have a contract (used by tools/closemap.py)")
 	verbose := flag.Bool("v", false, "print every obligation with its answer and time")
 	noCache := flag.Bool("nocache", false, "disable the result cache")
 	writeBase := flag.Bool("writebaseline", false, "record the generated obligation names of this property in obligations.baseline.json")
@@ -89,6 +92,54 @@ func main() {
 	if err != nil {
 		fmt.Println("ENGINE-FAULT load:", err)
 		os.Exit(2)
+	}
+	if *callsFlag {
+		// static call edges between library functions (a function literal counts as its own function, keyed parent$N,
+		// and is also an edge parent -> literal)
+		for key, fd := range v.decls {
+			if fd.decl.Body == nil {
+				continue
+			}
+			seen := map[string]bool{}
+			ast.Inspect(fd.decl.Body, func(n ast.Node) bool {
+				call, ok := n.(*ast.CallExpr)
+				if !ok {
+					return true
+				}
+				var obj types.Object
+				fun := ast.Unparen(call.Fun)
+				if ix, ok := fun.(*ast.IndexExpr); ok {
+					fun = ix.X
+				}
+				switch f := fun.(type) {
+				case *ast.Ident:
+					obj = fd.pkg.info.Uses[f]
+				case *ast.SelectorExpr:
+					if sel, ok := fd.pkg.info.Selections[f]; ok {
+						obj = sel.Obj()
+					} else {
+						obj = fd.pkg.info.Uses[f.Sel]
+					}
+				}
+				if fn, ok := obj.(*types.Func); ok {
+					fn = fn.Origin()
+					if fn.Pkg() != nil && v.pkgByTypes[fn.Pkg()] != nil {
+						k := v.funcKey(fn)
+						if !seen[k] {
+							seen[k] = true
+							fmt.Printf("%s %s\n", key, k)
+						}
+					}
+				}
+				return true
+			})
+		}
+		for key := range v.contracts.Funcs {
+			if i := strings.LastIndex(key, "$"); i > 0 {
+				fmt.Printf("%s %s\n", key[:i], key)
+			}
+		}
+		return
 	}
 	propMap, err := readPropMap(filepath.Join(*verifDir, "properties.map"))
 	if err != nil && *funcsFlag == "" {
